@@ -288,3 +288,47 @@ def quantity(rnd, ug, terms=None, simple=False):
     terms = terms or ug.expr()
     sep = rnd.choice(["", " ", ""])
     return magnitude(rnd, simple) + sep + ug.spell(terms), terms
+
+
+# ------------------------------------------------------------------ every unit word in a dimensional context (C05, C02)
+TARGETS = [("m/s^2", {"m": 1, "s": -2}), ("m/s", {"m": 1, "s": -1}), ("N", {"kg": 1, "m": 1, "s": -2}), ("J", {"kg": 1, "m": 2, "s": -2}),
+           ("W", {"kg": 1, "m": 2, "s": -3}), ("Pa", {"kg": 1, "m": -1, "s": -2}), ("Hz", {"s": -1}), ("m^2", {"m": 2}), ("m^3", {"m": 3}), ("kg/m^3", {"kg": 1, "m": -3}),
+           ("C", {"A": 1, "s": 1}), ("V", {"kg": 1, "m": 2, "s": -3, "A": -1}), ("kg", {"kg": 1}), ("m", {"m": 1}), ("s", {"s": 1}), ("A", {"A": 1}), ("mol/m^3", {"mol": 1, "m": -3}),
+           ("lx", {"cd": 1, "m": -2}), ("B/s", {"B": 1, "s": -1}), ("m/s^3", {"m": 1, "s": -3}), ("kg m/s", {"kg": 1, "m": 1, "s": -1})]
+
+
+def gen_context(rnd, v, n):
+    """Every unit word in a dimensional context: the word as one factor (numerator or denominator) of an expression that
+    is cast to a target of a common kind of quantity (acceleration, force, energy, ...), the other factors being base
+    units chosen so that the dimensions agree -- a word must mean the same whatever it is being converted to; and the
+    word alone cast to such a target, which has to be refused unless the dimensions agree."""
+    words = [w for w in v.names if v.typable(w) and v.unambiguous(w) and v.names[w][0][0] not in v.offset]
+    out = []
+    for w0 in words:
+        key = v.names[w0][0][0]
+        dw = v.units[key]["dims"]
+        for t, dt in TARGETS:
+            for form in ("alone", "num", "den"):
+                # n: the share of the factor forms that is asked (0 = all); the word alone is always asked
+                if n and form != "alone" and rnd.random() > n:
+                    continue
+                w = w0
+                if rnd.random() < 0.25:
+                    w2, _ = v.word_for(rnd, key)
+                    w = w2 or w
+                if form == "alone":
+                    out.append("%s %s to %s" % (magnitude(rnd, True), w, t))      # refused unless the word has these dimensions
+                    continue
+                sign = 1 if form == "num" else -1
+                comp = {b: dt.get(b, 0) - sign * dw.get(b, 0) for b in BASES}
+                comp = [(BASE_WORD[b], e) for b, e in comp.items() if e != 0]
+                rnd.shuffle(comp)
+                cs = rnd.choice(["*", " "]).join(x if e == 1 else "%s^%d" % (x, e) for x, e in comp)
+                if sign == 1:
+                    q = w if not cs else (w + rnd.choice(["*", " "]) + cs if rnd.random() < 0.5 else cs + rnd.choice(["*", " "]) + w)
+                else:
+                    q = (cs if cs else "1") + "/" + w
+                    if not cs:
+                        continue
+                out.append("%s %s to %s" % (magnitude(rnd, True), q, t))
+    return out
